@@ -52,6 +52,10 @@ def run(ck, rng):
                 fl = rng.choice("01")
                 cases.append("%sfout - %d %s %s" % (pre, b, fl, tail))
                 meta.append(("writer", b, len(doc), total, doc, mode, massive, out0))
+            # a real *os.File that rejects every write (/dev/full, read-only descriptor, broken pipe)
+            for fk in (rng.sample(range(3), 1) if ck.tier == "quick" else range(3)):
+                cases.append("%sfout - %d 3 %s" % (pre, fk, tail))
+                meta.append(("writer_osfile", 0, len(doc), total, doc, mode, massive, out0))
             # transient failure: exactly the k-th Write call is rejected, later ones succeed
             for kth in range(0, 14) if ck.tier == "thorough" else rng.sample(range(0, 14), 5):
                 cases.append("%sfout - %d 2 %s" % (pre, kth, tail))
@@ -68,11 +72,21 @@ def run(ck, rng):
             for b in sorted(set(rng.sample(range(total + 1), min(6, total + 1)) + [0, max(0, total - 1), total])):
                 cases.append("%sfrout %d %s %s %s %s" % ("m" if massive else "", b, rng.choice("01"), mode, bf_args(bf), items_arg(r0)))
                 meta.append(("root_writer", b, 0, total, doc, mode + " r", massive, out.split(" ")[1]))
+            cases.append("%sfrout %d 3 %s %s %s" % ("m" if massive else "", rng.randrange(3), mode, bf_args(bf), items_arg(r0)))
+            meta.append(("root_writer_osfile", 0, 0, total, doc, mode + " r", massive, out.split(" ")[1]))
             for kth in rng.sample(range(0, 10), 3):
                 cases.append("%sfrout %d 2 %s %s %s" % ("m" if massive else "", kth, mode, bf_args(bf), items_arg(r0)))
                 meta.append(("root_writer_kth", kth, 0, total, doc, mode + " r", massive, out.split(" ")[1]))
     impl, _ = run_impl(exe, cases)
-    model = run_model([c[1:] if c.startswith("m") else c for c in cases])
+    def model_case(c):
+        c = c[1:] if c.startswith("m") else c
+        f = c.split(" ")
+        if f[0] == "fout" and f[3] == "3":
+            f[2], f[3] = "0", "0"
+        if f[0] == "frout" and f[2] == "3":
+            f[1], f[2] = "0", "0"
+        return " ".join(f)
+    model = run_model([model_case(c) for c in cases])
     verdicts = {}
     broken = None
     for i, (kind, k, dl, total, doc, mode, massive, out0) in enumerate(meta):
@@ -100,6 +114,11 @@ def run(ck, rng):
                 bad = "nil returned although the writer rejected write call number %d" % k
             if len(fields) > 2:
                 impl[i] = fields[0] + " " + fields[1]
+        elif kind.endswith("_osfile"):
+            if r == "ok" and total > 0:
+                bad = "nil returned although the *os.File rejects every write (%d bytes of output)" % total
+            impl[i] = r + " -"
+            model[i] = model[i].split(" ")[0] + " -"
         else:
             if r == "ok" and k < total:
                 bad = "nil returned although the writer accepted only %d of %d bytes" % (len(unhx(acc)), total)
